@@ -40,7 +40,24 @@ RULE = ("cells = solver family x (problem shape, storage, shift, start vector, p
         "domain:runs-with-partly-nonfinite-trial, domain:runs-never-leaving-domain); oracle as for the other LM cells: an explicit raise "
         "after a non-finite trial residual, or a point returned before maxit that is finite, has a finite residual and Jacobian (lies in "
         "the domain) and ||J^T r|| small relative to the start, with info['func'] / info['Jac'] belonging to it; such a cell is "
-        "non-trivial when the run converged AND at least one trial residual was non-finite.  A cell is non-trivial when the solver stopped "
+        "non-trivial when the run converged AND at least one trial residual was non-finite.  ARGUMENT-INTEGRITY facet (every solve of every "
+        "cell above): all array-like argument objects handed to a solver / operator - A (dense array or the sparse matrix's data, indices, "
+        "indptr; also the matrix behind the function form), b, the preconditioner, box bounds handed to the projection at every iteration, "
+        "SciPy keyword arguments, the threshold / bounds of the prox cells (shared by ALL lattice inputs), next to the start vector - are "
+        "snapshot (type, dtype, shape, bytes) before the call and compared afterwards (argument-altered|arg=<name>); every reference "
+        "optimality system is evaluated from the harness's own pristine copies.  RE-USE facet (cells of kind 'reuse'): ONE set of "
+        "argument objects (A and the function form built on it, b, x0, P, shift values, step size, threshold vector, bounds) is "
+        "handed to two consecutive solves s1 -> s2: ALL ordered pairs over the step alphabet {CGLS, PCGLS} x {matrix, function} x shift "
+        "{0, .5} + ISTA [FISTA, thorough] x {matrix, function} x {L1, vector box} (so: matrix form then function form on the same b, shift "
+        "0 then shift > 0, two solver objects built from the same arrays, PCGLS / ISTA after CGLS ...), and s1 -> the SAME solver object "
+        "solved again; crossed with shape, zero / non-zero start, the representation of b (float64 catalogue b; integer-valued b as "
+        "float64 / integer array / float32 [/ list / CUQIarray]) and the representation of scalar parameters (python floats / arrays: "
+        "0-d shift and step size, length-n threshold vector).  Every solve is judged by the dense optimality system of ITS problem from "
+        "pristine copies; a second solve that fails (or raises, or returns another point than on fresh objects) although the same solve "
+        "on fresh, equal objects passes is reported as reused-arguments|after=<first solver> resp. solve-called-twice.  LM: all "
+        "ordered pairs of the documented (sparse, Jacobian) configurations on one start object + solve twice; wrappers: all ordered "
+        "pairs over {L_BFGS_B without / with bounds, minimize L-BFGS-B with bounds, minimize BFGS, maximize BFGS} on one start object "
+        "and one bounds ndarray + solve twice, reference = direct SciPy call on pristine equal objects.  A cell is non-trivial when the solver stopped "
         "by its own convergence test (before maxit) or, for prox cells, when the lattice has points on both sides of every bound")
 BOUND = {
     "quick": "CGLS: 3 shapes (6x4,5x5,3x5) x dense/sparse x shift{0,.5} x 4 starts x {matrix,function}; PCGLS: same x "
@@ -60,7 +77,13 @@ BOUND = {
              "inverse, solve}, FISTA and ISTA 6x4 x 4 regularisers x {zero,ones,far} and 3x5 x {zero,ones}, LM quadpert x {0, orthogonal, "
              "tiny} and expfit x {0, tiny} x 2 starts x {sparse+csr, dense}; all dense storage, both operator forms; LM restricted domain: "
              "{log, sqrt, reciprocal} x {exact, perturbed data} x 5 out-of-domain conventions x {sparse+csr, dense} x starts (a, a rho), "
-             "a in {16, 64}, rho in {0, +-.375, +-.75} (600 runs, maxit 1000, gradtol 1e-9)",
+             "a in {16, 64}, rho in {0, +-.375, +-.75} (600 runs, maxit 1000, gradtol 1e-9); argument integrity: every solve of every cell; "
+             "re-use histories: 3 shapes x dense x start {zero, ones} x (b, parameter) representation {(catalogue float64, python scalars), "
+             "(catalogue float64, arrays), (integer-valued int64, scalars), (integer-valued float32, scalars)} x first step in one of the "
+             "families CGLS / PCGLS (P lower bidiagonal, explicit inverse) / ISTA (4 steps each) x second step in the whole 12-step "
+             "alphabet + solve-again (13 histories per first step, 3744 in all), LM {expfit, quadpert} x 2 starts x (4 ordered pairs + 2 "
+             "solve-again), wrappers 5 first steps x {dyadic, zero start} x (5 second steps + solve-again); prox cells additionally with "
+             "the threshold as length-d array and scalar bounds as 0-d arrays",
     "thorough": "as quick with 4 shapes (adds 8x6), every start for every solver, 6 boxes, 4 L1 strengths, finer lattices "
                 "(d=2: 25^2, d=3: 13^3), 3 step sizes; start representation adds int32 and integer list, sparse storage, all 4 "
                 "preconditioners, FISTA on all shapes x 5 regularisers x far start, LM Rosenbrock from integer starts, "
@@ -69,7 +92,9 @@ BOUND = {
                 "regularisers x 3 step sizes at 2^{10,20,30} and the under-determined 3x5 at 2^10 (dense, largest step), FISTA (momentum) "
                 "3 shapes with m>=n at 2^10 and 2^20 (dense, largest step), structure cells for FISTA/ISTA on all 4 shapes x 3 starts; "
                 "LM restricted domain: starts a in {4, 8, 16, 32, 64} x rho in {0, +-.375, +-.75, +-.875} (35 starts), and the quick "
-                "starts additionally with gradtol 1e-15 (below round-off)",
+                "starts additionally with gradtol 1e-15 (below round-off); re-use histories: 4 shapes x dense/sparse x start {zero, ones, far} "
+                "x 10 (b, parameter) representations (adds integer-valued b as float64, int32, list, CUQIarray and arrays with int64 / float32 b), "
+                "alphabet of 20 steps (adds PCGLS through the solve path and FISTA with momentum on the shapes with m >= n), LM adds rosenbrock",
 }
 ASSUMPTIONS = [
     "numpy dense linear algebra (solve, lstsq, svd) is the trusted base of all reference optimality systems",
@@ -106,6 +131,17 @@ ASSUMPTIONS = [
     "1e-10 ||J|| ||r||) since the stopping rule is relative to it; a scaled start at which the residual/Jacobian is not finite or "
     "the Jacobian is numerically rank deficient (exp underflow: sigma_min <= 1e-12 sigma_max) lies outside the regular domain: "
     "the cell is counted, not run; a start with exactly zero gradient (zero data, zero start) is itself stationary and returning it after 0 iterations meets the demand (0 <= 0)",
+    "argument integrity: 'unchanged' means identical type, dtype, shape and bytes of the object the caller handed over (for sparse "
+    "matrices: of data / indices / indptr); callables are not snapshot, but the matrix the function form closes over is; arrays the "
+    "user's callbacks RETURN to the solver are not covered",
+    "re-use histories: length 2 (plus solving one solver object twice); b of the integer-valued contexts is 4 x the catalogue b (all "
+    "entries integers), the L1 strength is 1.0 and the box the vector box, step 0.99/L; a raise is a violation only for float64 b with "
+    "python-scalar parameters (the documented representation) - for any other representation of b or of the parameters the oracle is "
+    "'refuses, or returns a point that passes the dense optimality system evaluated with the float64 values' (solved or refused, never "
+    "mis-solved); a second solve is only blamed on the history when the same step passes as a first solve on fresh equal objects "
+    "(otherwise the first-solve verdict of that step, reported by the cell whose family it belongs to, stands); ISTA / FISTA runs that "
+    "reach maxit (50000 / 200000) only count; a length-n threshold vector with equal entries is used for the parameter-as-array "
+    "facet, so the scalar-strength oracle (complete active-set enumeration) applies unchanged",
     "restricted-domain LM cells: a residual that is not finite at a trial point is read as 'the trial point is outside the problem' - "
     "the statement's stationary point must be a point where the sum of squares exists, so a returned x with a non-finite residual "
     "or Jacobian is a violation (nonfinite-result) however the loop ended; a raise is accepted as an explicit refusal only after the "
@@ -261,6 +297,9 @@ def cells(tier, seed):
     for d in (1, 2, 3):
         for (ok, op) in ops:
             out.append({"kind": "prox", "op": ok, "par": op, "d": d, "fine": not q, "cat": k})
+            # parameter-representation facet: threshold as a length-d array, scalar bounds as 0-d arrays
+            if ok == "l1" or (ok == "box" and op not in ("default", "vector")):
+                out.append({"kind": "prox", "op": ok, "par": op, "d": d, "fine": not q, "parrep": "array", "cat": k})
     return out
 
 
@@ -1757,8 +1796,10 @@ def _eval_lbfgsb(cell, res):
     res.state(facet)
     res.transitions += 1
     x0arg = _as_rep(x0, x0type)
+    kwarg = {kk: (list(v) if isinstance(v, list) else v) for kk, v in kw.items()}     # the wrapper gets its own objects
+    guard = _Guard(**kwarg)
     try:
-        x, info = L_BFGS_B(f, x0arg, gradfunc=grad, **kw).solve()
+        x, info = L_BFGS_B(f, x0arg, gradfunc=grad, **kwarg).solve()
     except Exception as e:
         res.refused += 1
         if ref is not None:
@@ -1766,6 +1807,7 @@ def _eval_lbfgsb(cell, res):
         else:
             res.nontrivial = False
         return
+    _flag_altered(res, "L_BFGS_B", guard, facet)
     if ref is None:
         res.fail("C16|L_BFGS_B|x|scipy-refuses%s" % xf, "wrapper returned although SciPy refuses this configuration")
         return
@@ -1921,7 +1963,8 @@ def _eval_ls(cell, res):
 # (value of b, representation of b, representation of scalar parameters)
 REUSE_CTX_Q = [("cat", "float64", "scalar"), ("cat", "float64", "array"), ("int", "int64", "scalar"), ("int", "float32", "scalar")]
 REUSE_CTX_T = ([("cat", "float64", p) for p in ("scalar", "array")]
-               + [("int", r, p) for r in ("float64", "int64", "int32", "float32", "list", "CUQIarray") for p in ("scalar", "array")])
+               + [("int", r, "scalar") for r in ("float64", "int64", "int32", "float32", "list", "CUQIarray")]
+               + [("int", r, "array") for r in ("int64", "float32")])
 REUSE_MAXIT_CG, REUSE_TOL_CG = 400, 1e-12
 
 
@@ -2427,6 +2470,8 @@ def _lattice(d, fine):
 def _eval_prox(cell, res):
     from cuqi.solver import ProjectNonnegative, ProjectBox, ProximalL1
     d, op, par = cell["d"], cell["op"], cell["par"]
+    parr = cell.get("parrep") == "array"
+    pargs = {}
     ax, Z = _lattice(d, cell["fine"])
     if op == "nonneg":
         fn = lambda x: ProjectNonnegative(x)
@@ -2434,12 +2479,20 @@ def _eval_prox(cell, res):
         name, facet = "ProjectNonnegative", "d=%d" % d
     elif op == "box":
         la, ua, lo, up = _box(par, d)
+        if parr:        # scalar bounds handed over as 0-d arrays
+            la, ua = (None if la is None else np.array(la, dtype=float)), (None if ua is None else np.array(ua, dtype=float))
+        pargs = {"lower": la, "upper": ua}
         fn = lambda x: ProjectBox(x, la, ua)
         name, facet = "ProjectBox", "box=%s" % par
     else:
         gam = float(par)
-        fn = lambda x: ProximalL1(x, gam)
+        garg = np.full(d, gam) if parr else gam        # threshold as a vector (one entry per coordinate, all equal)
+        pargs = {"gamma": garg}
+        fn = lambda x: ProximalL1(x, garg)
         name, facet = "ProximalL1", "gamma%s0" % (">" if gam > 0 else "=")
+    if parr:
+        facet += ",par=array"
+    guard = _Guard(**pargs)
     if op != "l1":
         feas = np.all((Z >= lo) & (Z <= up), axis=1)
         Zf = Z[feas]
@@ -2493,6 +2546,10 @@ def _eval_prox(cell, res):
             pp = np.asarray(fn(p.copy()), float)
             if not close(pp, p, 1e-12):
                 fail("idempotence", "P(P(x)) != P(x) at x=%s" % x.tolist())
+    # the parameter objects (bounds / threshold) were shared by ALL lattice inputs: they still have the bytes they had
+    for nm in guard.altered():
+        fail("argument-altered", "the caller's `%s` object was modified by the operator" % nm)
+    res.evaluations += 1
     # array_like input (list) and a batch of columns, as the samplers use them
     try:
         res.transitions += 1
@@ -2504,7 +2561,7 @@ def _eval_prox(cell, res):
     except Exception as e:
         res.refused += 1
         res.outcomes.add("list-refused:" + type(e).__name__)
-    res.state("%s:%s:d=%d" % (name, par, d))
+    res.state("%s:%s:d=%d%s" % (name, par, d, ":par=array" if parr else ""))
     res.outcomes.add("%s:%s:d=%d:moved=%d/%d" % (name, par, d, nchanged, len(Z)))
     res.sample = {"lattice_axis": ax, "inputs": len(Z), "moved": nchanged}
 
